@@ -349,6 +349,10 @@ def with_versions(pkg: M.Package, rng: Rng, n_versions: int, partial: bool, must
 
 INVALID_KINDS = ["yaml_syntax", "duplicate_type", "unknown_type", "bad_field_name", "unknown_manifest_key",
                  "missing_namespace", "dup_version_label", "stream_in_record"]
+# (a record as map key and a stream of streams are accepted by yardl - the pinned upstream too - although the language guide rules them
+#  out: C09's business; they are not used as "certainly invalid" changes)
+RULE_KINDS = ["generic_arity", "unused_type_parameter", "duplicate_union_case", "duplicate_enum_value", "recursive_record",
+              "computed_field_unknown_member", "computed_field_bad_call", "duplicate_field", "reserved_primitive_name", "null_not_first"]
 
 
 def model_files(files: dict, pkgdir: str) -> list:
@@ -408,6 +412,27 @@ def invalidate(files: dict, pkgdir: str, rng: Rng, kind: str) -> tuple:
         p = rng.choice(mfs)
         files[p] = files[p] + "\nUnq%d: !record\n  fields:\n    ref: %s\n" % (rng.randint(1, 99), name)
         return files, "unqualified reference to %s (defined in %d other package directories) in %s" % (name, len(theirs[name]), p)
+    RULE_BREAKERS = {
+        # one definition each that breaks exactly one language rule (docs/*/language.md)
+        "generic_arity": "GenAr%d<T>: !record\n  fields:\n    a: T\n\nUsesGenAr%d: !record\n  fields:\n    b: GenAr%d<int, int>\n",
+        "unused_type_parameter": "UnusedTp%d<T>: !record\n  fields:\n    a: int\n",
+        "duplicate_union_case": "DupCase%d: !record\n  fields:\n    u: [int, int]\n",
+        "record_as_map_key": "KeyRec%d: !record\n  fields:\n    a: int\n\nBadMap%d: !record\n  fields:\n    m: KeyRec%d->int\n",
+        "duplicate_enum_value": "DupEnum%d: !enum\n  values:\n    a: 1\n    b: 1\n",
+        "recursive_record": "Cyc%d: !record\n  fields:\n    me: Cyc%d\n",
+        "computed_field_unknown_member": "Cf%d: !record\n  fields:\n    a: int\n  computedFields:\n    b: nosuch\n",
+        "computed_field_bad_call": "Cg%d: !record\n  fields:\n    a: int\n  computedFields:\n    b: size(a)\n",
+        "duplicate_field": "DupF%d: !record\n  fields:\n    a: int\n    a: string\n",
+        "reserved_primitive_name": "int32: !record\n  fields:\n    a: int\n",
+        "null_not_first": "NullPos%d: !record\n  fields:\n    u: [int, null]\n",
+        "stream_of_stream": "NestedS%d: !protocol\n  sequence:\n    s: !stream\n      items: !stream\n        items: int\n",
+    }
+    if kind in RULE_BREAKERS and mfs:
+        p = rng.choice(mfs)
+        k = rng.randint(100, 999)
+        text = RULE_BREAKERS[kind]
+        files[p] = files[p] + "\n" + (text % ((k,) * text.count("%d")))
+        return files, "%s in %s" % (kind.replace("_", " "), p)
     if kind == "unknown_manifest_key" and man in files:
         files[man] = files[man] + "bogusKey: 1\n"
         return files, "unknown key in " + man
